@@ -1875,6 +1875,8 @@ package leveldb
 //@   at before stmt imax = append(imax[:0], key...)
 //@     assert [C19:table-sequence-covers-every-entry] tSeq >= seq && tSeq >= gLow
 //@     assert [C06,C19:recorded-bounds-are-taken-from-valid-entries-only] kerr == nil
+//@   at before stmt imin = append([]byte(nil), key...)
+//@     assert [C06,C19:recorded-bounds-are-taken-from-valid-entries-only] kerr == nil
 //@   at before call (*sessionRecord).addTable#1
 //@     assert [C19:registered-tables-are-sound] tgoodKey > 0 && !isnil(imin) && !isnil(imax) && maxSeq >= tSeq && !(strict && (tcorruptedKey > 0 || tcorruptedBlock > 0))
 //@     assert [C19:damaged-tables-are-rebuilt-first] (tcorruptedKey > 0 || tcorruptedBlock > 0) ==> calls("storage.Storage.Rename") == old(calls("storage.Storage.Rename")) + 1
